@@ -144,7 +144,9 @@ func (x *Exec) evalCall(s *State, e *ast.CallExpr) Val {
 	} else if c.fv != nil && c.fv.Recv != nil {
 		recv = c.fv.Recv
 	}
+	x.opaqueAddrArgs = c.fn != nil && x.intrinsicHasRule(c)
 	args := x.evalArgs(s, e, c.sig)
+	x.opaqueAddrArgs = false
 	if s.dead {
 		return Val{}
 	}
@@ -243,6 +245,10 @@ func (x *Exec) evalArgs(s *State, e *ast.CallExpr, sig *types.Signature) []Val {
 	for i, a := range e.Args {
 		if sig.Variadic() && i >= np-1 {
 			break
+		}
+		if u, ok := unparen(a).(*ast.UnaryExpr); ok && u.Op == token.AND && x.opaqueAddrArgs {
+			args = append(args, Val{K: KInt, T: sig.Params().At(i).Type(), S: x.eng.fresh("addr", sInt)})
+			continue
 		}
 		v := x.eval(s, a)
 		if s.dead {
@@ -374,6 +380,9 @@ func (x *Exec) dispatch(s *State, e *ast.CallExpr, c callee, recv *Val, args []V
 		c := x.eng.fresh("ghost."+r.ghost, sInt)
 		s.assume(mkEq(c, v.S))
 		s.ghost[r.ghost] = Val{K: KInt, S: c}
+		if s.written != nil {
+			s.written["$ghost."+r.ghost] = true // a loop whose body runs this rule havocs the ghost at its head
+		}
 	}
 	return res
 }
